@@ -72,7 +72,10 @@ CLAIMS = {
          'built-in policies (definitions regenerated from policy.rs) compute the documented sizes and equal the executable ones; C18_fa_steady_run / C18_fq_steady_run '
          'add: input whose records all fit is read without any consultation; C09s.v (10): the same END-TO-END for ANY history of next(), owned reads, PLAIN record-set reads into two slots, '
          're-iteration and position queries, both formats: if every record\'s needed window fits the initial capacity (a property of the input alone: FaAllRecordsFit / FqAllRecordsFit) '
-         'the policy is never consulted and the capacity never changes, for every input length; the threshold is exact (examples: one byte less and the log has a consultation). Tie: recording policies, grow_to log and offered read sizes compared with the model; '
+         'the policy is never consulted and the capacity never changes, for every input length; the threshold is exact (examples: one byte less and the log has a consultation). '
+         'C09b.v (14): for the same histories WITHOUT the fit hypothesis every consultation is justified - the capacity at which the policy is asked is smaller than the needed window of '
+         'some record of the input (C09_*_consultation_means_record_does_not_fit) - hence with a policy that at most doubles (pol_std, DoubleUntil: proved) the capacity never exceeds '
+         'max(initial, 2*(W-1)) where W is the largest needed window, however long the input is (bound attained; exact-count reads are outside, with counter-examples). Tie: recording policies, grow_to log and offered read sizes compared with the model; '
          'oracle "no request when every needed window fits"; policies on a grid around thresholds.',
     technique='Coq structural proofs over all states + theorems over policy code generated from the source + differential run with recording policies',
     ref='5 C09'),
